@@ -27,6 +27,10 @@ type family struct {
 	// classify returns labels for the distribution report (operator names,
 	// outcome kinds...) and whether the case is non-trivial.
 	classify func(c *sx, observed string) (labels []string, nontrivial bool)
+	// rewrite (optional) lets a family whose case text carries data recorded
+	// from the run (a hook trace) replace the case text and the observable
+	// after the run: run returns a packed text, rewrite splits it.
+	rewrite func(c *sx, packed string) (caseText, observed string)
 }
 
 var families = map[string]*family{}
@@ -124,7 +128,14 @@ func main() {
 			fmt.Fprintln(os.Stderr, "bad case:", err)
 			os.Exit(2)
 		}
-		fmt.Println(runGuarded(f, c, 20*time.Second))
+		obs := runGuarded(f, c, 60*time.Second)
+		if f.rewrite != nil {
+			if t2, o2 := f.rewrite(c, obs); t2 != "" {
+				fmt.Println(t2)
+				obs = o2
+			}
+		}
+		fmt.Println(obs)
 	case "oracle":
 		cmdOracle(*prop, *seed, *n, *out)
 	case "oracle-replay":
@@ -187,6 +198,8 @@ func main() {
 			os.Exit(2)
 		}
 		fmt.Println("no failure reproduced on the current tree")
+	case "engine-worker":
+		engineWorkerMain()
 	case "coqcases":
 		cmdCoqCases(*in, *k, *out)
 	case "families":
@@ -226,7 +239,15 @@ func cmdRun(f *family, seed uint64, n int, out, corpus string) {
 			fmt.Fprintln(os.Stderr, "generator produced bad case:", text)
 			os.Exit(2)
 		}
-		obs := runGuarded(f, c, 20*time.Second)
+		obs := runGuarded(f, c, 60*time.Second)
+		if f.rewrite != nil {
+			if t2, o2 := f.rewrite(c, obs); t2 != "" {
+				text, obs = t2, o2
+				if c2, err := parseSx(text); err == nil {
+					c = c2
+				}
+			}
+		}
 		fmt.Fprintf(w, "%s\t%s\n", text, obs)
 		st.Evaluations++
 		labels, nt := []string(nil), true
@@ -277,7 +298,7 @@ func cmdOracle(prop string, seed uint64, n int, out string) {
 	all := []oracleFailure{}
 	stats := map[string]*oracleStats{}
 	for _, o := range os_ {
-		st := &oracleStats{Dist: map[string]int{}}
+		st := &oracleStats{Dist: map[string]int{}, Samples: []string{}}
 		r := newRng(seed ^ 0xABCDEF)
 		fails := o.run(r, n, st)
 		all = append(all, fails...)
@@ -341,6 +362,9 @@ func cmdCoqCases(in string, k int, out string) {
 		parts := strings.SplitN(sc.Text(), "\t", 2)
 		if len(parts) != 2 {
 			continue
+		}
+		if len(parts[0]) > 12000 {
+			continue // Coq's lexer overflows its stack on very long string literals; the extracted model still runs these
 		}
 		if i > 0 {
 			w.WriteString(";\n")
